@@ -111,6 +111,11 @@ inductive Event
   | timeout2 (src : Id) (seq n : Nat)
   | send2 (src : Id) (seq n : Nat)
   | hs (kind : String) (port chan : Id)
+  /-- ghost events (no application callback; not part of the observable callback log): a
+      successful v1 send, and the identifiers generated for new clients / connections -/
+  | send1 (port chan : Id) (seq : Nat)
+  | genClient (id : Id)
+  | genConn (id : Id)
 deriving DecidableEq, Repr
 
 structure ChainState where
